@@ -2,9 +2,11 @@ from props import KERNEL_TB, HARNESS_TB
 
 PROP = dict(
     title="Dutch auctions settle completely and sell at the posted, falling price",
-    lean_modules=["Comdex.Props.C10"],
+    lean_modules=["Comdex.Props.C10", "Comdex.Props.C10Effects"],
+    gen=["effects"],
     namespaces=["Comdex.C10"],
     required_theorems=[
+        "Comdex.C10.c10_pins", "Comdex.C10.c10_table",  # golden effect skeleton (Props/C10Effects.lean)
         "Comdex.C10.start_price_is_oracle_times_premium",
         "Comdex.C10.price_nonincreasing", "Comdex.C10.price_nonincreasing_v1", "Comdex.C10.price_nonincreasing_v2",
         "Comdex.C10.price_le_start", "Comdex.C10.price_le_start_v1", "Comdex.C10.price_le_start_v2",
@@ -28,6 +30,9 @@ PROP = dict(
               "proceeds_forwarded", "lend_bonus_stranded", "leftover_to_owner", "bid_refused", "leftover_to_owner_after_d7",
               "books_exact_after_d7", "pay_le_target_after_d7", "receive_le_collateral_after_d7", "close_distributes_after_d7"],
     trusted_base=[KERNEL_TB, HARNESS_TB,
+                  "extract/effects (go/ast, no type checking): ordered bank calls of auctionsV2.PlaceDutchAuctionBid, auction.PlaceDutchAuctionBid, auction.CloseDutchAuction with path conditions, texts normalised; PINNED in "
+                  "Props/C10Effects.lean against a reviewed literal (abstract party / denomination texts, positivity class, condition hashes) — "
+                  "golden skeleton, not derived from the model (its bank calls are not data); amounts not compared",
                   "Base/Dec.lean (model of sdk.Dec, validated separately against the real library by harness/dec_test.go)",
                   "Model/DutchPrice.lean is hand-written from x/auction/keeper/math.go:11-31 + dutch.go:495-503,639-656 and "
                   "x/auctionsV2/keeper/maths.go:9-25 + auctions.go:240-335; tied by calling the real exported V2 helpers and by running the "
